@@ -550,7 +550,44 @@ fn worker_job(w: &Worker, job: &Job) -> JobOut {
                     out.violations.push(("dry_run_differs".into(), format!("dry run listed {} action(s), the real run planned {:?}", lines.len(), plan_count(&captured)), json!({})));
                 }
             }
-        }
+                    // a dry run must also touch nothing when the recorded state is damaged or half-written (a crash
+            // inside save() leaves only `.bak`/`.tmp`; a lost or truncated primary)
+            if let Some(r) = &st.r {
+                let valid = w.archive_json(&w.a, &w.b, r, None, 1);
+                let faults: Vec<(&str, Option<Vec<u8>>, bool, bool)> = vec![
+                    ("only-bak-tmp", None, true, true),
+                    ("only-bak", None, true, false),
+                    ("zero-length", Some(Vec::new()), false, false),
+                    ("truncated-half", Some(valid[..valid.len() / 2].to_vec()), false, false),
+                    ("truncated-half+bak", Some(valid[..valid.len() / 2].to_vec()), true, false),
+                ];
+                for (name, bytes, bak, tmp) in faults {
+                    w.materialise(st, false, None, None);
+                    let ap = w.archive_file(&w.a, &w.b);
+                    let _ = std::fs::create_dir_all(ap.parent().unwrap_or(&w.home));
+                    let _ = std::fs::remove_file(&ap);
+                    if let Some(b) = &bytes {
+                        let _ = std::fs::write(&ap, b);
+                    }
+                    if bak {
+                        let _ = std::fs::write(format!("{}.bak", ap.display()), &valid);
+                    }
+                    if tmp {
+                        let _ = std::fs::write(format!("{}.tmp", ap.display()), &valid);
+                    }
+                    let before = (w.snapshot(&w.a), w.snapshot(&w.b), w.home_listing());
+                    let (dres, _) = w.run(&w.a, &w.b, true);
+                    out.runs_executed += 1;
+                    out.fault_runs += 1;
+                    let after = (w.snapshot(&w.a), w.snapshot(&w.b), w.home_listing());
+                    if dres != "ok" {
+                        out.violations.push(("dry_run_failed".into(), format!("bisync --dry-run with the recorded state {name} returned {dres}"), json!({"fault": name})));
+                    } else if before != after {
+                        out.violations.push(("dry_run_mutates".into(), format!("bisync --dry-run with the recorded state {name} changed a tree or the files under $HOME/.copia"), json!({"fault": name})));
+                    }
+                }
+            }
+}
         "C06" => {
             // a divergent path whose conflict-copy name is already in use before the run (known-finding class D7)
             let d7 = divergent(st, st.r.is_some()).iter().any(|(q, _, l)| {
